@@ -104,6 +104,83 @@ def check(recipe, ctx):
         ctx.nontrivial()
 
 
+def check_file(recipe, ctx):
+    """The light is part of a scenario that is written to a file: afterwards the in-memory light still follows its cycle
+    definition (writing only reads), and so does the light read back from the file."""
+    import os
+    import shutil
+    import tempfile
+    import warnings
+    from commonroad.common.file_reader import CommonRoadFileReader
+    from commonroad.common.file_writer import CommonRoadFileWriter, OverwriteExistingFile
+    from commonroad.common.util import FileFormat
+    from commonroad.planning.planning_problem import PlanningProblemSet
+    from commonroad.scenario.lanelet import Lanelet, LaneletNetwork
+    from commonroad.scenario.scenario import Scenario, Tag
+    from crverif.gen import fileprofile as fp
+    from crverif.gen.pbprofile import pb_profile_base
+    durations, colours, offset, ts = recipe["durations"], recipe["colours"], recipe["offset"], recipe["ts"]
+    fmt = recipe["fmt"]
+    allowed = fp.xml_profile_base()["light_colours"] if fmt == "xml" else pb_profile_base()["light_colours"]
+    if any(c not in allowed for c in colours):
+        ctx.discard("colour-not-in-format")
+    total = sum(durations)
+    elements = [TrafficLightCycleElement(TrafficLightState[c], d) for c, d in zip(colours, durations)]
+    cycle = TrafficLightCycle(elements, time_offset=offset)
+    light = TrafficLight(7, np.array([1.0, 2.0]), cycle, active=recipe["active"])
+    xs = np.array([0.0, 10.0, 20.0])
+    lanelet = Lanelet(np.column_stack((xs, xs * 0 + 2)), np.column_stack((xs, xs * 0)), np.column_stack((xs, xs * 0 - 2)),
+                      1)
+    net = LaneletNetwork.create_from_lanelet_list([lanelet])
+    net.add_traffic_light(light, {1})
+    sc = Scenario(0.1)
+    sc.add_objects(net)
+    light = sc.lanelet_network.find_traffic_light_by_id(7)
+    if recipe["query_first"]:
+        light.get_state_at_time_step(ts[0])
+    d = tempfile.mkdtemp(prefix="crverif-c17-")
+    try:
+        ff = FileFormat.XML if fmt == "xml" else FileFormat.PROTOBUF
+        path = os.path.join(d, "s.xml" if fmt == "xml" else "s.pb")
+        import contextlib
+        import io
+        with warnings.catch_warnings(), contextlib.redirect_stdout(io.StringIO()):
+            warnings.simplefilter("ignore")
+            CommonRoadFileWriter(sc, PlanningProblemSet(), "a", "b", "c", {Tag.URBAN}, file_format=ff).write_to_file(
+                path, OverwriteExistingFile.ALWAYS)
+            sc2, _ = CommonRoadFileReader(path, file_format=ff).open()
+    finally:
+        shutil.rmtree(d, ignore_errors=True)
+    back = sc2.lanelet_network.find_traffic_light_by_id(7)
+    if back is None:
+        raise Violation("file-light-lost-" + fmt, "traffic light 7 is not in the scenario read back")
+    for who, obj in (("written", light), ("read-back", back)):
+        for t in ts:
+            got = obj.get_state_at_time_step(t)
+            exp = reference(durations, colours, offset, t)
+            if not isinstance(got, TrafficLightState) or got.name != exp:
+                raise Violation("state-%s-light-%s" % (who, fmt), "durations=%s colours=%s offset=%s active=%r t=%s: "
+                                "got %s expected %s" % (durations, colours, offset, recipe["active"], t, got, exp))
+            if obj.get_state_at_time_step(t + total) != got:
+                raise Violation("periodicity-%s-light-%s" % (who, fmt), "t=%s total=%s" % (t, total))
+    ctx.label("format-" + fmt)
+    if not recipe["active"]:
+        ctx.label("light-inactive")
+    if offset % total != 0:
+        ctx.label("offset-not-multiple-of-period")
+        ctx.nontrivial()
+
+
+def s_file(tier):
+    return st.integers(1, 5).flatmap(lambda k: st.fixed_dictionaries({
+        "durations": st.lists(st.integers(1, 12), min_size=k, max_size=k),
+        "colours": st.lists(st.sampled_from(COLOURS), min_size=k, max_size=k),
+        "offset": st.one_of(st.integers(0, 40), st.integers(0, 3)),
+        "ts": st.lists(st.one_of(st.integers(-30, 200), st.integers(-5, 40)), min_size=2, max_size=8),
+        "fmt": st.sampled_from(["xml", "pb"]), "active": st.sampled_from([True, True, False]),
+        "query_first": st.booleans()}))
+
+
 def enumerate_small(tier):
     cols = ["RED", "GREEN", "YELLOW"]
     ts = list(range(-12, 41))
@@ -132,6 +209,10 @@ def strategy(tier):
 
 
 FACETS = [
+    Facet("through-a-file", check_file, strategy=s_file, quick=1200, thorough=40000,
+          rule="a light (1-5 phases, offset 0-40, active or not) in a one-lanelet scenario written as XML / protobuf: the "
+               "in-memory light after the write and the light read back both follow the cycle definition; non-trivial = "
+               "offset not a multiple of the period"),
     Facet("exhaustive-small", check, enumerate=enumerate_small, shards_quick=4, shards_thorough=4,
           rule="complete enumeration: <=3 elements, durations 1-4, offsets 0-5, t in [-12,40]; one case = one cycle "
                "queried at all 53 t; non-trivial = has t before offset / at phase boundary / single element"),
